@@ -235,14 +235,15 @@ Lemma lex1_id cx s R :
   id_shape s -> nohead id_part R -> nohead (fun c => c =? 92) R -> lex1 cx (s ++ R) = Some (TId s, R).
 Proof. intro H. apply lex1_word. left. exact H. Qed.
 
-(* the texts printNonNegativeFloat produces: digits, digits.digits, digits e [-] digits, 0x hexdigits
-   (a leading "." as in ".5" is outside the modelled fragment) *)
+(* the texts printNonNegativeFloat produces: digits, digits.digits, digits e [-] digits, 0x hexdigits,
+   and .digits (minify-whitespace strips the zero of "0.5") *)
 Definition int_shape (s : list Z) : Prop := s <> [] /\ forallb digit s = true.
 Definition num_shape (s : list Z) : Prop :=
   int_shape s
   \/ (exists ip fp, s = ip ++ 46 :: fp /\ int_shape ip /\ int_shape fp)
   \/ (exists m sg ds, s = m ++ 101 :: sg ++ ds /\ int_shape m /\ (sg = [] \/ sg = [45]) /\ int_shape ds)
-  \/ (exists h, s = 48 :: 120 :: h /\ h <> [] /\ forallb hexd h = true).
+  \/ (exists h, s = 48 :: 120 :: h /\ h <> [] /\ forallb hexd h = true)
+  \/ (exists fp, s = 46 :: fp /\ int_shape fp).
 (* printNonNegativeFloat: needSpaceBeforeDot is set unless the text contains ".", "e" or "x" *)
 Definition dex (c : Z) : bool := (c =? 46) || (c =? 101) || (c =? 120).
 Definition plain_int (s : list Z) : bool := negb (existsb dex s).
@@ -259,9 +260,10 @@ Proof.
 Qed.
 Lemma plain_int_spec s : num_shape s -> plain_int s = true -> int_shape s.
 Proof.
-  unfold plain_int. intros [H|[(ip & fp & E & _)|[(m & sg & ds & E & _)|(h & E & _)]]] Hp; [exact H| | |]; subst s; exfalso.
+  unfold plain_int. intros [H|[(ip & fp & E & _)|[(m & sg & ds & E & _)|[(h & E & _)|(fp & E & _)]]]] Hp; [exact H| | | |]; subst s; exfalso.
   - rewrite existsb_app in Hp. simpl in Hp. rewrite orb_true_r in Hp. discriminate.
   - rewrite existsb_app in Hp. simpl in Hp. rewrite orb_true_r in Hp. discriminate.
+  - simpl in Hp. discriminate.
   - simpl in Hp. discriminate.
 Qed.
 Lemma int_plain s : int_shape s -> plain_int s = true.
@@ -270,13 +272,14 @@ Proof. intros [_ H]. unfold plain_int. rewrite (digits_no_dex s H). reflexivity.
 Lemma int_hd s : int_shape s -> exists c s', s = c :: s' /\ digit c = true.
 Proof. intros [Hne H]. destruct s as [|c s']; [congruence|]. exists c, s'. split; [reflexivity|]. simpl in H. apply andb_true_iff in H. tauto. Qed.
 
-Lemma num_hd s : num_shape s -> exists c s', s = c :: s' /\ digit c = true.
+Lemma num_hd s : num_shape s -> exists c s', s = c :: s' /\ (digit c = true \/ c = 46).
 Proof.
-  intros [H|[(ip & fp & E & Hi & _)|[(m & sg & ds & E & Hi & _)|(h & E & _)]]].
-  - apply int_hd. exact H.
-  - destruct (int_hd ip Hi) as (c & ip' & E' & Hc). subst. exists c, (ip' ++ 46 :: fp). split; [reflexivity | exact Hc].
-  - destruct (int_hd m Hi) as (c & m' & E' & Hc). subst. exists c, (m' ++ 101 :: sg ++ ds). split; [reflexivity | exact Hc].
-  - subst. exists 48, (120 :: h). split; reflexivity.
+  intros [H|[(ip & fp & E & Hi & _)|[(m & sg & ds & E & Hi & _)|[(h & E & _)|(fp & E & _)]]]].
+  - destruct (int_hd s H) as (c & s' & E & Hc). exists c, s'. auto.
+  - destruct (int_hd ip Hi) as (c & ip' & E' & Hc). subst. exists c, (ip' ++ 46 :: fp). split; [reflexivity | left; exact Hc].
+  - destruct (int_hd m Hi) as (c & m' & E' & Hc). subst. exists c, (m' ++ 101 :: sg ++ ds). split; [reflexivity | left; exact Hc].
+  - subst. exists 48, (120 :: h). split; [reflexivity | left; reflexivity].
+  - subst. exists 46, fp. split; [reflexivity | right; reflexivity].
 Qed.
 Lemma last_app_cons {A} (a : list A) x b d : last (a ++ x :: b) d = last (x :: b) d.
 Proof. induction a as [|y a IH]; [reflexivity|]. simpl app. remember (a ++ x :: b) as l. destruct l as [|z l']; [destruct a; discriminate|]. exact IH. Qed.
@@ -291,7 +294,7 @@ Lemma digit_id_part c : digit c = true -> id_part c = true.
 Proof. unfold id_part. intro H. rewrite H. apply orb_true_r. Qed.
 Lemma num_last_idpart s : num_shape s -> id_part (last s 0) = true.
 Proof.
-  intros [[Hne H]|[(ip & fp & E & _ & [Hne H])|[(m & sg & ds & E & _ & _ & [Hne H])|(h & E & Hne & H)]]].
+  intros [[Hne H]|[(ip & fp & E & _ & [Hne H])|[(m & sg & ds & E & _ & _ & [Hne H])|[(h & E & Hne & H)|(fp & E & [Hne H])]]]].
   - apply digit_id_part. apply forallb_last; assumption.
   - subst. destruct fp as [|x fp']; [congruence|]. rewrite last_app_cons. change (last (46 :: x :: fp') 0) with (last (x :: fp') 0).
     apply digit_id_part. apply forallb_last; assumption.
@@ -301,6 +304,18 @@ Proof.
     + symmetry. change (101 :: sg ++ x :: ds') with ((101 :: sg) ++ x :: ds'). apply last_app_cons.
   - subst. destruct h as [|x h']; [congruence|]. change (last (48 :: 120 :: x :: h') 0) with (last (x :: h') 0).
     apply hexd_id_part. apply forallb_last; assumption.
+  - subst. destruct fp as [|x fp']; [congruence|]. change (last (46 :: x :: fp') 0) with (last (x :: fp') 0).
+    apply digit_id_part. apply forallb_last; assumption.
+Qed.
+
+Lemma num_dot_inv s' : num_shape (46 :: s') -> exists d s'', s' = d :: s'' /\ digit d = true.
+Proof.
+  intros [H|[(ip & fp & E & Hi & _)|[(m & sg & ds & E & Hi & _)|[(h & E & _)|(fp & E & Hf)]]]].
+  - destruct (int_hd _ H) as (c & r & E & Hc). inversion E; subst. discriminate.
+  - destruct (int_hd _ Hi) as (c & r & E' & Hc). subst ip. inversion E; subst. discriminate.
+  - destruct (int_hd _ Hi) as (c & r & E' & Hc). subst m. inversion E; subst. discriminate.
+  - discriminate.
+  - inversion E; subst. apply int_hd. exact Hf.
 Qed.
 
 Lemma nohead_digit_of_idpart R : nohead id_part R -> nohead digit R.
@@ -317,6 +332,21 @@ Lemma lex1_num cx s R :
 Proof.
   intros Hshape HR Hdot.
   assert (HRd : nohead digit R) by (apply nohead_digit_of_idpart; exact HR).
+  assert (Hcase : (exists fp, s = 46 :: fp /\ int_shape fp) \/
+                  (int_shape s \/ (exists ip fp, s = ip ++ 46 :: fp /\ int_shape ip /\ int_shape fp) \/ (exists m sg ds, s = m ++ 101 :: sg ++ ds /\ int_shape m /\ (sg = [] \/ sg = [45]) /\ int_shape ds) \/ (exists h, s = 48 :: 120 :: h /\ h <> [] /\ forallb hexd h = true)))
+    by (unfold num_shape in Hshape; tauto).
+  clear Hshape. destruct Hcase as [(fp & Es & Hne & Hfp)|Hshape].
+  { (* .digits *)
+    subst s. destruct fp as [|d0 fp']; [congruence|].
+    assert (Hd0 : digit d0 = true) by (simpl in Hfp; apply andb_true_iff in Hfp; tauto).
+    unfold lex1. change ((46 :: d0 :: fp') ++ R) with (46 :: d0 :: fp' ++ R).
+    rewrite comment_start_hd by lia. change (id_start 46) with false. change (46 =? 92) with false. change (46 =? 48) with false.
+    change (digit 46) with false. change (46 =? 46) with true. simpl orb. simpl andb. cbv iota. rewrite Hd0. cbv iota.
+    change (span digit (46 :: d0 :: fp' ++ R)) with (@nil Z, 46 :: d0 :: fp' ++ R). cbv beta iota.
+    change (46 =? 46) with true. cbv iota.
+    change (d0 :: fp' ++ R) with ((d0 :: fp') ++ R). rewrite (span_app' digit _ _ Hfp HRd). cbv beta iota.
+    rewrite (exp_part_none R HR). rewrite app_nil_r. simpl app.
+    destruct R as [|d r]; [reflexivity|]. rewrite (HR d r eq_refl). reflexivity. }
   assert (Hhead : exists c s', s = c :: s' /\ digit c = true /\ (c = 48 -> match s' ++ R with x :: _ => (x =? 120) || (x =? 88) | [] => false end = true -> exists h, s' = 120 :: h /\ h <> [] /\ forallb hexd h = true)).
   { destruct Hshape as [H|[(ip & fp & E & Hi & _)|[(m & sg & ds & E & Hi & _)|(h & E & Hne & Hh)]]].
     - destruct (int_hd s H) as (c & s' & E & Hc). exists c, s'. split; [exact E|]. split; [exact Hc|].
@@ -465,6 +495,20 @@ Proof.
   assert (Hr : (c0 =? 47) && regex_ok cx = false).
   { destruct (c0 =? 47) eqn:E47; [|reflexivity]. apply Z.eqb_eq in E47. rewrite (Hre E47). reflexivity. }
   rewrite Hr. unfold lex_punct'. rewrite Hlp. rewrite Hq. reflexivity.
+Qed.
+
+(* 12.8: "?." followed by a decimal digit is the punctuator "?" (then a number that starts with ".") *)
+Lemma lex1_quest_dot cx d R : digit d = true -> lex1 cx (63 :: 46 :: d :: R) = Some (TP [63], 46 :: d :: R).
+Proof.
+  intro Hd.
+  assert (Hlp : lex_punct ([63; 46] ++ d :: R) = Some ([63; 46], d :: R)).
+  { apply lex_punct_app; [reflexivity | simpl; lia|]. simpl hdz. vm_compute. intros []. }
+  unfold lex1.
+  assert (Hcs : comment_start (line_start cx) (63 :: 46 :: d :: R) = false) by (destruct (line_start cx); reflexivity).
+  rewrite Hcs. change (id_start 63) with false. change (63 =? 92) with false. change (63 =? 48) with false.
+  change (digit 63) with false. change (63 =? 46) with false. change (63 =? 47) with false. simpl orb. simpl andb. cbv iota.
+  unfold lex_punct'. change (63 :: 46 :: d :: R) with ([63; 46] ++ d :: R). rewrite Hlp.
+  change (zlist_eqb [63; 46] (zs "?.")) with true. rewrite Hd. reflexivity.
 Qed.
 
 (* how a punctuator's follow conditions are established from the next character alone *)
